@@ -42,10 +42,19 @@ pub struct Cell<T: Clone> {
     pub out: Out<T>,
     pub gets: std::cell::Cell<u64>,
     pub updates: u64,
+    /// "read-once" behaviour: when set, every get() after the first one (since the last `set`) returns
+    /// this instead of `out` (a mailbox that is emptied by reading, a sample that expires between polls)
+    pub then: Option<Out<T>>,
+    pub polled: std::cell::Cell<bool>,
 }
 impl<T: Clone> Getter<T, E> for Cell<T> {
     fn get(&self) -> Out<T> {
         self.gets.set(self.gets.get() + 1);
+        if let Some(t) = &self.then {
+            if self.polled.replace(true) {
+                return t.clone();
+            }
+        }
         self.out.clone()
     }
 }
@@ -67,7 +76,16 @@ impl<T: Clone + 'static> Src<T> {
             out: Ok(None),
             gets: std::cell::Cell::new(0),
             updates: 0,
+            then: None,
+            polled: std::cell::Cell::new(false),
         })))
+    }
+    /// first poll returns `first`, every later poll `then` (until the next set)
+    pub fn set_once(&self, first: Out<T>, then: Out<T>) {
+        let mut c = self.0.borrow_mut();
+        c.out = first;
+        c.then = Some(then);
+        c.polled.set(false);
     }
     pub fn with(out: Out<T>) -> Self {
         let s = Self::new();
@@ -75,7 +93,10 @@ impl<T: Clone + 'static> Src<T> {
         s
     }
     pub fn set(&self, out: Out<T>) {
-        self.0.borrow_mut().out = out;
+        let mut c = self.0.borrow_mut();
+        c.out = out;
+        c.then = None;
+        c.polled.set(false);
     }
     pub fn ev(&self, ev: &Ev<T>) {
         self.set(ev.out());
